@@ -36,12 +36,28 @@ type scenario struct {
 	Mode    string   `json:"mode"` // "live": splice the live message; "replace": send the captured messages 0..Msg instead, the last one spliced
 	Sp      []splice `json:"sp"`
 	Measure bool     `json:"measure"`
+	Inner   bool     `json:"inner"` // splice the Certificate message BEFORE the server compresses it (the message inside CompressedCertificate)
 }
 
 type flightCase struct {
 	Name   string   `json:"name"`
 	Parrot string   `json:"parrot"`
 	Flags  []string `json:"flags"` // v12 hrr ccert alps creq mtls psk sku cku
+}
+
+// which of the algorithms the client advertises the server compresses with: flag calg1 / calg2 = second / third
+func (c flightCase) compAlg(algs []tls.CertCompressionAlgo) tls.CertCompressionAlgo {
+	i := 0
+	if c.has("calg1") {
+		i = 1
+	}
+	if c.has("calg2") {
+		i = 2
+	}
+	if i >= len(algs) {
+		i = len(algs) - 1
+	}
+	return algs[i]
 }
 
 func (c flightCase) has(f string) bool {
@@ -161,6 +177,7 @@ type sideObs struct {
 type connObs struct {
 	Client, Server sideObs
 	CMsgs, SMsgs   [][]byte
+	SInner         [][]byte // per server message: the plaintext Certificate message it was compressed from (else empty)
 	Rec0           []byte // first record the client wrote
 	Applied, Fit   bool
 	Orig, Mut      []byte
@@ -342,14 +359,28 @@ func (e *runEnv) once(cs flightCase, scn *scenario) (o connObs) {
 		idx := ns
 		ns++
 		// the server role: certificate compression / ALPS (base flight, also present in the capture)
+		inner := []byte{}
 		if len(data) > 4 && data[0] == 11 && cs.has("ccert") && len(cc.compAlgs) > 0 && !cs.has("v12") {
-			data = compressCertificate(data, cc.compAlgs[0])
+			if scn != nil && scn.Inner && scn.Side == "s" && idx == scn.Msg {
+				// the hostile server mutates the certificate message first and compresses the result correctly
+				o.Orig = append([]byte{}, data...)
+				data, o.Fit = applySplices(data, scn.Sp)
+				o.Mut = append([]byte{}, data...)
+				o.Applied = true
+			}
+			inner = append(inner, data...)
+			if len(data) >= 4 {
+				data = compressCertificate(data, cs.compAlg(cc.compAlgs))
+			}
 		}
 		if len(data) > 4 && data[0] == 8 && cs.has("alps") && cc.alpsCode != 0 {
 			data = addALPS(data, cc.alpsCode, []byte("SRVR"))
 		}
-		data = rewrite("s", idx, data)
+		if scn == nil || !scn.Inner {
+			data = rewrite("s", idx, data)
+		}
 		o.SMsgs = append(o.SMsgs, append([]byte{}, data...))
+		o.SInner = append(o.SInner, inner)
 		return data
 	}}
 	if cs.has("alps") && cc.alpsCode != 0 {
@@ -567,7 +598,7 @@ func init() {
 			cs := req.Cases[i/req.Repeat]
 			o := env.once(cs, nil)
 			res[i] = map[string]any{"ev": "Capture", "case": cs.Name, "parrot": cs.Parrot, "flags": append([]string{}, cs.Flags...), "run": i % req.Repeat,
-				"c": intsList(o.CMsgs), "s": intsList(o.SMsgs), "rec0": hlib.Ints(o.Rec0),
+				"c": intsList(o.CMsgs), "s": intsList(o.SMsgs), "s_inner": intsList(o.SInner), "rec0": hlib.Ints(o.Rec0),
 				"client": sideEv(o.Client, o.Server), "server": sideEv(o.Server, o.Client), "prime_err": o.PrimeErr, "deadline_ms": int(env.deadline / time.Millisecond)}
 		})
 		for _, e := range res {
